@@ -117,6 +117,14 @@ pub struct KnownFinding {
     pub avoid: Option<String>,
     pub signature: Option<String>,
     pub commit: Option<String>,
+    /// other properties whose checks meet the same defect (e.g. C16 runs the default rules too)
+    pub also: Vec<String>,
+}
+
+impl KnownFinding {
+    pub fn applies_to(&self, prop: &str) -> bool {
+        self.property == prop || self.also.iter().any(|p| p == prop)
+    }
 }
 
 pub struct RunCtx {
@@ -207,13 +215,13 @@ impl RunCtx {
         }
         self.known
             .iter()
-            .any(|k| k.property == self.prop && k.status == "known" && k.avoid.as_deref() == Some(switch))
+            .any(|k| k.applies_to(&self.prop) && k.status == "known" && k.avoid.as_deref() == Some(switch))
     }
 
     pub fn known_signature(&self, sig: &str) -> Option<&KnownFinding> {
         self.known
             .iter()
-            .find(|k| k.property == self.prop && k.status == "known" && k.signature.as_deref() == Some(sig))
+            .find(|k| k.applies_to(&self.prop) && k.status == "known" && k.signature.as_deref() == Some(sig))
     }
 
     pub fn note(&self, s: impl Into<String>) {
@@ -505,6 +513,7 @@ pub fn load_known(verif_dir: &Path) -> Vec<KnownFinding> {
             avoid: g("avoid"),
             signature: g("signature"),
             commit: g("commit"),
+            also: e.get("also").and_then(|a| a.as_array()).map(|a| a.iter().filter_map(|x| x.as_str().map(|s| s.to_string())).collect()).unwrap_or_default(),
         });
     }
     out
@@ -589,7 +598,7 @@ pub fn run_property(def: &PropDef, tier: Tier, seed: u64, verif_dir: PathBuf) ->
     let mut known_lines = vec![];
 
     // 1. committed findings of this property
-    for k in ctx.known.iter().filter(|k| k.property == def.id) {
+    for k in ctx.known.iter().filter(|k| k.applies_to(def.id)) {
         let path = verif_dir.join(&k.replay);
         let text = match std::fs::read_to_string(&path) {
             Ok(t) => t,
@@ -647,7 +656,7 @@ pub fn run_property(def: &PropDef, tier: Tier, seed: u64, verif_dir: PathBuf) ->
         (def.run)(&ctx);
     }
     let mut failures = ctx.failures.lock().unwrap().clone();
-    if let Some(min) = def.minimize {
+    if let (Some(min), false) = (def.minimize, std::env::var("VERIF_NO_MINIMIZE").is_ok()) {
         for f in failures.iter_mut() {
             if let Ok(Some(v2)) = catch(|| min(&f.replay)) {
                 if let Ok(Err(msg)) = catch(|| (def.replay)(&v2)) {
